@@ -3,11 +3,15 @@
 (* Distribution binning (property C11).  All quantities are integers over  *)
 (* a common scale: a binning is [bx, by, xmin, sx, ymin, sy] with sx, sy   *)
 (* > 0 the bin sizes; a coordinate is <<"fin", n>> with n an integer on the *)
-(* same scale, or <<"nan", 0>>, <<"+inf", 0>>, <<"-inf", 0>>.              *)
+(* same scale, or <<"nan", 0>>, <<"+inf", 0>>, <<"-inf", 0>>, or a         *)
+(* floating-point neighbour <<"lo", n>>, <<"hi", n>> of such an integer.    *)
 (***************************************************************************)
 EXTENDS Integers, Sequences, FiniteSets
 
-IsTag(c) == c[1] # "fin"
+\* <<"lo", n>> / <<"hi", n>>: the floating-point neighbour below / above n in the numeric type of the run.  It is within one rounding error
+\* of n, so it is treated like n itself: next to an edge either adjacent bin is admissible (or none at the ends of the range) - but never a
+\* bin further away, a bin of another distribution or a failure
+IsTag(c) == c[1] \notin {"fin", "lo", "hi"}
 Fin(n) == <<"fin", n>>
 NoBin == -1
 
